@@ -57,6 +57,7 @@ def run(F, chk):
             else:
                 ra.violation(key, b.where(bi), "a path removes a stream and returns without re-examining the cached %s slot (dangling gid)" % fld)
     activity_rule(F, chk)
+    window_arith_rule(F, chk)
     # ---------------- R-C15-b --------------------------------------------------
     rb = chk.rule("R-C15-b", "T4", "shrink_trailing_recycle is called only from Context::create_stream", floor=1)
     callers = sorted({b.path for b, bi, t in F.call_sites(MUX + "Context::<L>::shrink_trailing_recycle")})
@@ -304,3 +305,41 @@ def activity_rule(F, chk):
             r.ok(key, b.where(bi), "behind a `> 0` test of a length derived from the frame's data")
         else:
             r.violation(key, b.where(bi), "a DATA frame refreshes the stream's activity timestamp without a `> 0` test of its application payload length: padding-only frames keep an idle stream (and its MAX_CONCURRENT_STREAMS slot) alive forever")
+
+
+def window_arith_rule(F, chk):
+    """R-C15-i: flow-control windows move by peer-chosen amounts (WINDOW_UPDATE increments, SETTINGS_INITIAL_WINDOW_SIZE
+    deltas up to 2^31-1).  Growing one with a raw `+` / `*` overflows i32 on a three-frame input: a panic of the
+    single-threaded worker in builds with overflow checks, a silently wrapped (negative) window otherwise.  So every
+    raw addition/multiplication whose operand is a window value is a violation (checked_add with an error path is
+    the accepted form); raw subtraction is the debit by bytes actually sent (bounded by R-C14-a) and is only counted
+    as the positive control of the matcher."""
+    r = chk.rule("R-C15-i", "T6", "no unchecked growth of a flow-control window", floor=2)
+    def is_win(b, o):
+        pl = op_place(o)
+        for _ in range(6):
+            if isinstance(pl, int):
+                d = b.single_def(pl)
+                if d and d[2] == "assign" and d[3]["k"] == "use" and op_place(d[3]["a"]) is not None:
+                    pl = op_place(d[3]["a"])
+                    continue
+            break
+        fs = proj_fields(pl) if isinstance(pl, dict) else []
+        return bool(fs and fs[-1][2] == "window")
+    n = 0
+    for b in F.grep("|window"):
+        if not b.path.startswith((MUX, "<" + MUX)) or b.derived or "::tests::" in b.path:
+            continue
+        for bi, si, st in b.stmts():
+            rv = st.get("rv")
+            if not (rv and rv["k"] == "bin" and rv["op"] in ("Add", "Sub", "Mul", "Shl")):
+                continue
+            if not (is_win(b, rv["a"]) or is_win(b, rv["b"])):
+                continue
+            r.fn(b.path)
+            if rv["op"] == "Sub":
+                n += 1
+                r.ok("%s|window debit#%d" % (b.path, n), b.where(bi, si), "raw subtraction (debit by bytes sent)", nontrivial=False)
+            else:
+                r.violation("%s|raw %s on a window" % (b.path, rv["op"]), b.where(bi, si), "a flow-control window is grown with an unchecked `%s`: a peer-chosen increment / SETTINGS delta overflows i32 (worker panic with overflow checks, wrapped negative window without)" % {"Add": "+", "Mul": "*", "Shl": "<<"}[rv["op"]])
+    r.require(n >= 2, "only %d raw window debits found (positive control of the matcher)" % n)
